@@ -145,6 +145,22 @@ func c12Leap(p *Prog, r *Report, rule string) {
 	want := Y.Sub(PInt(1)).Scale(ratInt(365)).Add(PCall("idiv", Y.Sub(PInt(1)), PInt(4)))
 	rest := mas.Sub(want)
 	r.Ob("forward:day-number", p.Pos(masPos), !rest.MentionsAtom(yf), fmt.Sprintf("day number = (Y−1)·365 + (Y−1)/4 + day-of-year; remainder %s must not depend on the year", clip(rest.String(), 120)))
+	// the day of the year handed out next to the day number is the very remainder of the day number: one
+	// definition, no cap — 31 December of a leap year is day 366 (a cap at 365 makes it equal to 30 December)
+	nz := 0
+	okz := true
+	var zpos token.Pos
+	var zval Poly
+	for _, e := range fx.Events {
+		if e.Kind == "assign" && e.Local != nil && e.Local.Name() == "ztDat" {
+			nz++
+			zpos, zval = e.Pos, e.Val
+			if !e.Val.Equal(rest) {
+				okz = false
+			}
+		}
+	}
+	r.Ob("forward:day-of-year", p.Pos(zpos), nz == 1 && okz, fmt.Sprintf("day of year = %s, defined %d time(s); must be defined once as the year-independent remainder of the day number (%s)", clip(polyOr(zval), 80), nz, clip(rest.String(), 80)))
 	// forward leap test: mod(Y,4) == 0 guards the table shift; shift applies to months >= 3
 	shiftOK, leapGuard := false, false
 	for _, e := range fx.Events {
